@@ -15,6 +15,8 @@ package main
 import (
 	"encoding/hex"
 	"fmt"
+	"math"
+	"math/big"
 	"math/rand/v2"
 	"net/http"
 	"net/http/httptest"
@@ -168,7 +170,14 @@ func newWorld(idx int, rng *rand.Rand, viaHTTP bool) *world {
 	if viaHTTP {
 		w.innerMd = 1
 	}
-	w.clk = &vclock{t: time.Unix(baseUnix+int64(rng.IntN(1_000_000)), 0)}
+	base := baseUnix
+	switch rng.IntN(8) {
+	case 0:
+		base = 100_000 // 1970: every ordinary stamp of today is ~57 years ahead
+	case 1:
+		base = 10_000_000_000 // year 2286: stamps of today are ~257 years behind, ts=0 more than 292 years
+	}
+	w.clk = &vclock{t: time.Unix(base+int64(rng.IntN(1_000_000)), 0)}
 	if rng.IntN(3) == 0 {
 		w.clk.t = w.clk.t.Add(time.Duration(1+rng.IntN(999_999_999)) * time.Nanosecond)
 	}
@@ -444,6 +453,22 @@ type mutation struct {
 
 func one(s string) []string { return []string{s} }
 
+// farRng: a small deterministic generator derived from the (random) nonce of the proof under construction.
+func farRng(c comp) *rand.Rand {
+	var a, b uint64
+	for i := 0; i < len(c.nonce); i++ {
+		if i%2 == 0 {
+			a = a*131 + uint64(c.nonce[i])
+		} else {
+			b = b*137 + uint64(c.nonce[i])
+		}
+	}
+	return rand.New(rand.NewPCG(a, b))
+}
+
+var farFutureClasses = []string{"ts-millisecond-stamp", "ts-microsecond-stamp", "ts-nanosecond-stamp", "ts-292-years-ahead", "ts-power-of-ten",
+	"ts-random-11-to-19-digits", "ts-maxint64-minus-k"}
+
 func mutations() []mutation {
 	valid := func(w *world, rng *rand.Rand) (comp, string) {
 		c := w.comp(rng, w.inWindowDelta(rng))
@@ -537,6 +562,41 @@ func mutations() []mutation {
 		{"ts-space", withTs(func(w *world, c comp) string { return " " + c.ts }, true)},
 		{"ts-overflow-20-digits", withTs(func(w *world, c comp) string { return "99999999999999999999" }, true)},
 		{"ts-int64-max", withTs(func(w *world, c comp) string { return "9223372036854775807" }, true)},
+		// valid MAC, timestamps across the whole int64 magnitude range (a proxy stamping
+		// milliseconds / nanoseconds, powers of ten, the neighbourhood of MaxInt64, and the
+		// +-292-year point where time.Duration arithmetic saturates): all far outside the window
+		{"ts-millisecond-stamp", withTs(func(w *world, c comp) string { return fmt.Sprint(w.clk.sec() * 1000) }, true)},
+		{"ts-microsecond-stamp", withTs(func(w *world, c comp) string { return fmt.Sprint(w.clk.sec() * 1_000_000) }, true)},
+		{"ts-nanosecond-stamp", withTs(func(w *world, c comp) string {
+			return new(big.Int).Mul(big.NewInt(w.clk.sec()), big.NewInt(1_000_000_000)).String() // may exceed int64 for late clocks: then 20 digits
+		}, true)},
+		{"ts-292-years-ahead", withTs(func(w *world, c comp) string {
+			return fmt.Sprint(w.clk.sec() + 9_223_372_036 + int64(farRng(c).IntN(5)) - 1) // MaxInt64 ns = 9 223 372 036.85 s
+		}, true)},
+		{"ts-292-years-behind", withTs(func(w *world, c comp) string {
+			v := w.clk.sec() - 9_223_372_036 - int64(farRng(c).IntN(5)) + 1
+			if v < 0 {
+				v = 0
+			}
+			return fmt.Sprint(v)
+		}, true)},
+		{"ts-power-of-ten", withTs(func(w *world, c comp) string { return "1" + strings.Repeat("0", 10+farRng(c).IntN(9)) }, true)},
+		{"ts-random-11-to-19-digits", withTs(func(w *world, c comp) string {
+			r := farRng(c)
+			n := 11 + r.IntN(9)
+			d := []byte(randString(r, "0123456789", n))
+			d[0] = "123456789"[r.IntN(9)]
+			if n == 19 && d[0] == '9' {
+				d[0] = '8' // stay below MaxInt64; the overflow case has its own class
+			}
+			return string(d)
+		}, true)},
+		{"ts-maxint64-minus-k", withTs(func(w *world, c comp) string {
+			ks := []int64{1, 2, 1000, 1_900_000_000, 62_000_000_000, 100_000_000_000, 1_000_000_000_000, 1_000_000_000_000_000, 4_611_686_018_427_387_904}
+			return fmt.Sprint(int64(math.MaxInt64) - ks[farRng(c).IntN(len(ks))])
+		}, true)},
+		{"ts-maxint64-plus-1", withTs(func(w *world, c comp) string { return "9223372036854775808" }, true)},
+		{"ts-minint64-text", withTs(func(w *world, c comp) string { return "-9223372036854775808" }, true)},
 		{"ts-leading-zeros-mac-over-padded(valid)", withTs(func(w *world, c comp) string { return strings.Repeat("0", 20-len(c.ts)) + c.ts }, true)},
 		{"ts-leading-zeros-mac-over-unpadded", withTs(func(w *world, c comp) string { return "0" + c.ts }, false)},
 		{"ts-changed-mac-kept", withTs(func(w *world, c comp) string {
@@ -835,6 +895,27 @@ func (w *world) scenarioStepBack(rng *rand.Rand) {
 	w.step("step-back-script:replay-after-return", one(p))
 }
 
+// scenarioFarFuture: a validly MACed proof with a timestamp of another order of
+// magnitude is presented, the clock moves past any nonce retention (2*skew+2 s),
+// another proof is admitted (which makes the cache sweep), and the same string
+// is presented again.  Both presentations must be refused, inner never called.
+func (w *world) scenarioFarFuture(rng *rand.Rand) {
+	name := farFutureClasses[rng.IntN(len(farFutureClasses))]
+	var hdr []string
+	for _, m := range allMutations {
+		if m.name == name {
+			hdr = m.gen(w, rng)
+		}
+	}
+	w.step(name, hdr)
+	for k := 0; k < 1+rng.IntN(2); k++ {
+		w.advance(time.Duration(2*w.skew+2+int64(rng.IntN(5))) * time.Second)
+		w.step("valid-fresh", one(w.tok(w.comp(rng, 0))))
+		w.classes["far-future-script:replay-presented-after-retention-and-sweep"]++
+		w.step("far-future-script:replay:"+name, hdr)
+	}
+}
+
 func runWorld(r *mon.Run, arm uint64, idx int, viaHTTP bool) *world {
 	rng := r.Rand(arm, uint64(idx))
 	w := newWorld(idx, rng, viaHTTP)
@@ -847,9 +928,11 @@ func runWorld(r *mon.Run, arm uint64, idx int, viaHTTP bool) *world {
 		w.scenarioRandom(rng, 40)
 	case 0:
 		w.scenarioTTL(rng)
+		w.scenarioFarFuture(rng)
 		w.scenarioRandom(rng, 10)
 	case 3:
 		w.scenarioCapacity(rng)
+		w.scenarioFarFuture(rng)
 		w.scenarioRandom(rng, 10)
 	case 4:
 		w.scenarioSweep(rng)
@@ -967,6 +1050,9 @@ func main() {
 		"refuse:secret-of-another-kid", "refuse:kid-unknown", "accept:ts-edge-in-plus-skew", "accept:ts-edge-in-minus-skew",
 		"refuse:ts-edge-out-plus-skew+1", "refuse:ts-edge-out-minus-skew-1", "refuse:no-header", "refuse:two-headers-both-valid",
 		"refuse:comma-joined-two-valid", "accept:ts-leading-zeros-mac-over-padded(valid)",
+		"refuse:ts-millisecond-stamp", "refuse:ts-nanosecond-stamp", "refuse:ts-292-years-ahead", "refuse:ts-292-years-behind", "refuse:ts-power-of-ten",
+		"refuse:ts-random-11-to-19-digits", "refuse:ts-maxint64-minus-k", "refuse:ts-maxint64-plus-1",
+		"far-future-script:replay-presented-after-retention-and-sweep",
 		"ttl-script:replay-presented:>=skew-after-admission:timestamp-still-valid",
 		"capacity-script:replay-presented:below-capacity", "capacity-script:replay-presented:at-or-above-capacity",
 		"step-back-script:replay-presented-after-clock-stepped-back",
@@ -977,7 +1063,7 @@ func main() {
 	establishBaseline(r)
 
 	// ~42 presentations per world on average
-	runArm(r, 1, r.N(480, 24000), false)
-	runArm(r, 2, r.N(40, 1200), true)
-	runConcurrent(r, r.N(200, 20000))
+	runArm(r, 1, r.N(480, 40000), false)
+	runArm(r, 2, r.N(40, 2000), true)
+	runConcurrent(r, r.N(200, 30000))
 }
